@@ -210,7 +210,57 @@ func runC09(r *Run, verifDir string) {
 			}
 		}
 	})
-	r.Check(verOK, "C09.B1", "kmipserver.BatchExecutor.handleRequest/version", exec.Pos(), "execution dominated by slices.Contains(exec.supportedVersions, req.Header.ProtocolVersion)", "items can be executed for a request whose protocol version is not among the supported ones")
+	verWhy := "execution dominated by slices.Contains(exec.supportedVersions, req.Header.ProtocolVersion)"
+	if !verOK {
+		// alternative: the only way past a failed membership test is a request made of Discover Versions items only
+		// (version discovery is served whatever version the request is framed with, see C13)
+		allInstrs(hr, func(in ssa.Instruction) {
+			c, ok := in.(*ssa.Call)
+			if !ok {
+				return
+			}
+			id := callID(&c.Call)
+			if !(id.pkg == "slices" && id.name == "Contains" && reqField(c.Call.Args[1], "Header", "ProtocolVersion")) {
+				return
+			}
+			if u, ok := c.Call.Args[0].(*ssa.UnOp); !ok {
+				return
+			} else if _, fld, ok := fieldAddrOf(u.X); !ok || fname(fld) != "supportedVersions" {
+				return
+			}
+			for _, ref := range *c.Referrers() {
+				iff, ok := ref.(*ssa.If)
+				if !ok {
+					continue
+				}
+				fb := iff.Block().Succs[1] // version not supported
+				if len(fb.Instrs) == 0 {
+					continue
+				}
+				iff2, ok := fb.Instrs[len(fb.Instrs)-1].(*ssa.If)
+				if !ok {
+					continue
+				}
+				pc, ok := iff2.Cond.(*ssa.Call)
+				if !ok || pc.Call.StaticCallee() == nil || !discoveryOnlyPredicate(pc.Call.StaticCallee(), reg) {
+					continue
+				}
+				// predicate false -> error return that cannot reach the executor
+				rej := fb.Succs[1]
+				retErr := false
+				for _, in2 := range rej.Instrs {
+					if ret, ok := in2.(*ssa.Return); ok && len(ret.Results) == 2 && !isNilConst(ret.Results[1]) {
+						retErr = true
+					}
+				}
+				if retErr && !reachableFrom(rej)[exec.Block()] && dominatesInstr(c, exec) {
+					verOK = true
+					verWhy = "execution requires slices.Contains(exec.supportedVersions, req.Header.ProtocolVersion), or a request made of Discover Versions items only (" + fnKey(pc.Call.StaticCallee()) + ")"
+				}
+			}
+		})
+	}
+	r.Check(verOK, "C09.B1", "kmipserver.BatchExecutor.handleRequest/version", exec.Pos(), verWhy, "items can be executed for a request whose protocol version is not among the supported ones")
 	r.Check(undoOK, "C09.B1", "kmipserver.BatchExecutor.handleRequest/undo", exec.Pos(), "the Undo option returns an error before any item runs", "a request with the Undo option is not rejected before its items are executed")
 	r.Check(countOK, "C09.B1", "kmipserver.BatchExecutor.handleRequest/count", exec.Pos(), "execution dominated by int(BatchCount) == len(BatchItem)", "items can be executed although the header's batch count differs from the number of items")
 	// HandleRequest maps the error to handleMessageError; handleMessageError builds one failed item with BatchCount 1
@@ -405,6 +455,45 @@ func runC09(r *Run, verifDir string) {
 					}
 				}
 			})
+		}
+		// the pre-filled item is the one returned: nothing else is ever assigned to the result
+		replaced := token.NoPos
+		allInstrs(ei, func(in ssa.Instruction) {
+			st, ok := in.(*ssa.Store)
+			if !ok {
+				return
+			}
+			cell, ok := st.Addr.(*ssa.Alloc)
+			if !ok {
+				return
+			}
+			pt, ok := cell.Type().(*types.Pointer)
+			if !ok {
+				return
+			}
+			if pp, ok := pt.Elem().(*types.Pointer); !ok || typeName(pp.Elem()) != "ResponseBatchItem" {
+				return
+			}
+			if _, isAlloc := st.Val.(*ssa.Alloc); isAlloc {
+				return
+			}
+			// `return resp, err` with a deferred closure spills the results back into their own cells
+			if ld, ok := st.Val.(*ssa.UnOp); ok && ld.Op == token.MUL && ld.X == ssa.Value(cell) {
+				return
+			}
+			replaced = st.Pos()
+		})
+		for _, b := range ei.Blocks {
+			if ret, ok := b.Instrs[len(b.Instrs)-1].(*ssa.Return); ok && len(ret.Results) > 0 {
+				if c, isCall := ret.Results[0].(*ssa.Call); isCall && typeName(c.Type()) == "ResponseBatchItem" {
+					replaced = ret.Pos()
+				}
+			}
+		}
+		if replaced.IsValid() {
+			r.Bad("C09.B3", "kmipserver.BatchExecutor.executeItem/echo-kept", replaced, "executeItem replaces the item it pre-filled with the request's Operation and UniqueBatchItemID by another item: on that path the response item no longer echoes the request item's id")
+		} else {
+			r.OK("C09.B3", "kmipserver.BatchExecutor.executeItem/echo-kept", ei.Pos(), "the pre-filled item is the only value ever assigned to the result")
 		}
 		r.Check(op2 && id2 && !clobber, "C09.B3", "kmipserver.BatchExecutor.executeItem/echo", ei.Pos(), "the executed item starts as {Operation: bi.Operation, UniqueBatchItemID: bi.UniqueBatchItemID}; the error mapper leaves both untouched", "an executed item does not echo the request item's Operation and UniqueBatchItemID")
 	}
@@ -820,4 +909,83 @@ func runC15(r *Run, verifDir string) {
 		pos = hr.Pos()
 	}
 	r.Check(!hasGo, "C15.O4", "kmipserver/batch-path/no-go", pos, "no goroutine is spawned between HandleRequest and the handlers: items of a request see each other's placeholder writes in order", "items of one request can run concurrently: placeholder reads and writes race")
+}
+
+
+// discoveryOnlyPredicate: fn(req) returns true only if every batch item's Operation is Discover Versions: it compares
+// the Operation of the items with that constant inside a loop, the mismatch edge returns false, and every other return
+// lies outside the loop.
+func discoveryOnlyPredicate(fn *ssa.Function, reg *Registry) bool {
+	if fn == nil || fn.Blocks == nil {
+		return false
+	}
+	var disc int64 = -1
+	for _, e := range reg.Enums {
+		if e.Type.Obj().Name() == "Operation" {
+			for _, v := range e.Values {
+				if v.Name == "DiscoverVersions" {
+					disc = int64(v.Num)
+				}
+			}
+		}
+	}
+	if disc < 0 {
+		return false
+	}
+	okCmp := false
+	var loopBlocks map[*ssa.BasicBlock]bool
+	allInstrs(fn, func(in ssa.Instruction) {
+		bo, ok := in.(*ssa.BinOp)
+		if !ok || (bo.Op != token.NEQ && bo.Op != token.EQL) {
+			return
+		}
+		k, ok := constIntVal(bo.Y)
+		if !ok || k != disc || typeName(bo.X.Type()) != "Operation" {
+			return
+		}
+		ld, ok := bo.X.(*ssa.UnOp)
+		if !ok {
+			return
+		}
+		if _, fld, ok := fieldAddrOf(ld.X); !ok || fname(fld) != "Operation" {
+			return
+		}
+		for _, ref := range *bo.Referrers() {
+			iff, ok := ref.(*ssa.If)
+			if !ok {
+				continue
+			}
+			mis := iff.Block().Succs[0]
+			if bo.Op == token.EQL {
+				mis = iff.Block().Succs[1]
+			}
+			for _, in2 := range mis.Instrs {
+				if ret, ok := in2.(*ssa.Return); ok && len(ret.Results) == 1 {
+					if c, ok := ret.Results[0].(*ssa.Const); ok && c.Value != nil && c.Value.String() == "false" {
+						okCmp = true
+						// the loop: blocks from which the comparison block is reachable and that it reaches
+						loopBlocks = map[*ssa.BasicBlock]bool{}
+						from := reachableFrom(iff.Block())
+						for _, b := range fn.Blocks {
+							if from[b] && reachableFrom(b)[iff.Block()] {
+								loopBlocks[b] = true
+							}
+						}
+					}
+				}
+			}
+		}
+	})
+	if !okCmp {
+		return false
+	}
+	// no return of a possibly-true value inside the loop
+	for b := range loopBlocks {
+		if ret, ok := b.Instrs[len(b.Instrs)-1].(*ssa.Return); ok {
+			if c, ok := ret.Results[0].(*ssa.Const); !ok || c.Value == nil || c.Value.String() != "false" {
+				return false
+			}
+		}
+	}
+	return true
 }
